@@ -568,7 +568,7 @@ Proof.
   rewrite (chain_read_go_spec s i ids Hgood).
   - reflexivity.
   - exact Hfit.
-  - apply le_n_S, le_0_n.
+  - apply le_n_S, Nat.le_0_l.
   - intro Hn. apply fuel_enough; [apply slen_pos | exact Hn].
 Qed.
 
@@ -621,3 +621,395 @@ Proof.
   replace (N.of_nat (S (S (S (N.to_nat (n / slen s)))))) with (n / slen s + 3) by lia.
   nia.
 Qed.
+
+(* ------------------------------------------------------------------ *)
+(* writing without extension                                           *)
+(* ------------------------------------------------------------------ *)
+
+Lemma spliceN_nil : forall l off, off <= lenN l -> spliceN l off [] = l.
+Proof.
+  intros l off H. rewrite spliceN_inside by exact H. cbn [app lenN].
+  rewrite N.add_0_r. apply takeN_dropN_id.
+Qed.
+
+(* updating one sector of a duplicate-free chain splices its content *)
+Lemma content_update : forall s s1 sl ids q sid ow b,
+  NoDup ids ->
+  Forall (fun x => lenN (sector_bytes s x) = sl) ids ->
+  nthN ids q = Some sid ->
+  ow + lenN b <= sl ->
+  sector_bytes s1 sid = spliceN (sector_bytes s sid) ow b ->
+  (forall x, x <> sid -> sector_bytes s1 x = sector_bytes s x) ->
+  chain_content s1 ids = spliceN (chain_content s ids) (sl * q + ow) b.
+Proof.
+  intros s s1 sl ids. induction ids as [|x t IH];
+    intros q sid ow b Hnd HF Hn Hfit Hsame Hoth.
+  - discriminate.
+  - pose proof (Forall_inv HF) as Hx. pose proof (Forall_inv_tail HF) as Ht.
+    cbv beta in Hx. rewrite !chain_content_cons.
+    pose proof (NoDup_cons_iff x t) as [Hnd' _]. destruct (Hnd' Hnd) as [Hnotin Hndt].
+    destruct (N.eq_dec q 0) as [E|E].
+    + subst q. cbn [nthN N.eqb] in Hn. injection Hn as Hn. subst x.
+      rewrite N.mul_0_r, N.add_0_l.
+      rewrite spliceN_app_le by blia. rewrite Hsame. f_equal.
+      unfold chain_content. f_equal. apply map_ext_in. intros a Ha.
+      apply Hoth. intro Heq. subst a. contradiction.
+    + rewrite nthN_cons_pos in Hn by lia.
+      pose proof (nthN_In _ _ _ _ Hn) as Hin.
+      assert (Hne : x <> sid) by (intro Heq; subst x; contradiction).
+      rewrite (Hoth x Hne).
+      rewrite spliceN_app_ge by (unfold byte in *; nia). f_equal.
+      replace (sl * q + ow - lenN (sector_bytes s x)) with (sl * N.pred q + ow)
+        by (unfold byte in *; nia).
+      apply (IH (N.pred q) sid ow b); assumption.
+Qed.
+
+(* good_chain only looks at the lengths of the chain's sectors *)
+Lemma good_chain_transfer : forall s s1 ids,
+  good_chain s ids ->
+  same_meta s s1 ->
+  lenN (img s1) = lenN (img s) ->
+  (forall x, In x ids -> lenN (sector_bytes s1 x) = lenN (sector_bytes s x)) ->
+  good_chain s1 ids.
+Proof.
+  intros s s1 ids (Hnd & HF & Himg & Hpos) Hmeta Hlen Hsec.
+  destruct (same_meta_fields _ _ Hmeta) as (_ & Hns & _ & _ & _ & _ & _ & _ & _ & _ & _ & Hsl).
+  split; [exact Hnd|]. split; [|split].
+  - rewrite Forall_forall in *. intros x Hx. destruct (HF x Hx) as [H1 H2].
+    rewrite Hns, Hsl, (Hsec x Hx). split; assumption.
+  - rewrite Hlen, Hns. exact Himg.
+  - rewrite Hsl. exact Hpos.
+Qed.
+
+Lemma chain_write_go_spec : forall i ids fuel s off bs,
+  good_chain s ids ->
+  off + lenN bs <= slen s * lenN ids ->
+  (1 <= fuel)%nat ->
+  (0 < lenN bs -> off + lenN bs <= slen s * (off / slen s + N.of_nat fuel - 1)) ->
+  exists s',
+    chain_write_go fuel (mkChain i ids off) bs s
+      = (s', Ok (mkChain i ids (off + lenN bs))) /\
+    same_meta s s' /\
+    lenN (img s') = lenN (img s) /\
+    chain_content s' ids = spliceN (chain_content s ids) off bs /\
+    good_chain s' ids /\
+    (forall x, ~ In x ids -> sector_bytes s' x = sector_bytes s x) /\
+    (forall x, lenN (sector_bytes s' x) = lenN (sector_bytes s x)).
+Proof.
+  intros i ids. induction fuel as [|f IH]; intros s off bs Hgood Hfit Hf1 Hfuel; [lia|].
+  pose proof (good_chain_lens _ _ Hgood) as HL.
+  pose proof (good_chain_len _ _ Hgood) as HCL.
+  cbn [chain_write_go].
+  destruct bs as [|b0 bt] eqn:Ebs.
+  - exists s. mred. cbn [lenN]. rewrite N.add_0_r.
+    cbn [lenN] in Hfit.
+    split; [reflexivity|]. split; [apply same_meta_refl|]. split; [reflexivity|].
+    split; [symmetry; apply spliceN_nil; blia|]. split; [exact Hgood|].
+    split; intros; reflexivity.
+  - assert (Hbs : 0 < lenN (b0 :: bt)) by (cbn [lenN]; lia).
+    rewrite <- Ebs in *. clear Ebs b0 bt. specialize (Hfuel Hbs).
+    destruct Hgood as (Hnd & HF & Himg & Hpos).
+    assert (Hgood : good_chain s ids) by (repeat split; assumption).
+    mred.
+    destruct (divmod_split (slen s) off Hpos) as [Eoff Hr].
+    destruct (off =? slen s * lenN ids) eqn:E1; [lia|]. mred.
+    assert (Hq : off / slen s < lenN ids) by (apply div_lt_len; lia).
+    destruct (nthN ids (off / slen s)) as [sid|] eqn:Hn;
+      [| apply nthN_None_ge in Hn; lia].
+    pose proof (nthN_In _ _ _ _ Hn) as Hin.
+    pose proof HF as HF'. rewrite Forall_forall in HF'.
+    destruct (HF' _ Hin) as [Hsid Hlen].
+    remember (N.min (lenN bs) (slen s - off mod slen s)) as k eqn:Ek.
+    assert (Hlk : lenN (takeN k bs) = k) by (rewrite lenN_takeN; lia).
+    destruct (sector_write_read s sid (off mod slen s) (takeN k bs) Hsid Hlen)
+      as (s1 & Hw & Hs1 & Hb & _ & Hoth); [lia|].
+    rewrite Hw.
+    assert (Hmeta1 : same_meta s s1) by (unfold same_meta; rewrite Hs1; reflexivity).
+    assert (Himg1 : lenN (img s1) = lenN (img s))
+      by (rewrite Hs1; cbn [img w_img]; apply lenN_updN).
+    assert (Hlen1 : forall x, lenN (sector_bytes s1 x) = lenN (sector_bytes s x)).
+    { intro x. destruct (N.eq_dec x sid) as [->|Hne].
+      - rewrite Hb, lenN_spliceN. blia.
+      - rewrite (Hoth x Hne). reflexivity. }
+    assert (Hgood1 : good_chain s1 ids).
+    { apply (good_chain_transfer s s1 ids Hgood Hmeta1 Himg1). intros x _. apply Hlen1. }
+    destruct (same_meta_fields _ _ Hmeta1) as (_ & _ & _ & _ & _ & _ & _ & _ & _ & _ & _ & Hsl).
+    assert (Hc1 : chain_content s1 ids = spliceN (chain_content s ids) off (takeN k bs)).
+    { rewrite Eoff at 1.
+      apply (content_update s s1 (slen s) ids (off / slen s) sid); try assumption. lia. }
+    destruct (IH s1 (off + k) (dropN k bs) Hgood1) as (s' & Hgo & Hmeta & Himg' & Hc & Hgood' & Hfr & Hlen').
+    + rewrite Hsl, lenN_dropN. lia.
+    + assert (off + lenN bs > slen s * (off / slen s)) by lia. nia.
+    + rewrite Hsl, lenN_dropN. intro Hrem.
+      assert (Hk : k = slen s - off mod slen s) by lia.
+      rewrite Hk, div_next by exact Hpos.
+      replace (off + (slen s - off mod slen s) + (lenN bs - (slen s - off mod slen s)))
+        with (off + lenN bs) by lia.
+      replace (off / slen s + 1 + N.of_nat f - 1)
+        with (off / slen s + N.of_nat (S f) - 1) by lia.
+      exact Hfuel.
+    + exists s'. mred. rewrite Hgo. rewrite lenN_dropN.
+      replace (off + k + (lenN bs - k)) with (off + lenN bs) by lia.
+      split; [reflexivity|].
+      split; [eapply same_meta_trans; eassumption|].
+      split; [congruence|].
+      split.
+      { rewrite Hc, Hc1.
+        replace (off + k) with (off + lenN (takeN k bs)) by (rewrite Hlk; reflexivity).
+        rewrite spliceN_spliceN.
+        rewrite takeN_dropN_id. reflexivity. }
+      split; [exact Hgood'|].
+      split.
+      { intros x Hx. rewrite (Hfr x Hx). apply Hoth. intro Heq. subst x. contradiction. }
+      { intro x. rewrite Hlen'. apply Hlen1. }
+Qed.
+
+Theorem chain_write_spec : forall s c bs,
+  good_chain s (c_ids c) ->
+  c_off c + lenN bs <= chain_len (slen s) c ->
+  exists s',
+    chain_write_all c bs s
+      = (s', Ok (mkChain (c_init c) (c_ids c) (c_off c + lenN bs))) /\
+    chain_content s' (c_ids c) = spliceN (chain_content s (c_ids c)) (c_off c) bs /\
+    spliceN (chain_content s (c_ids c)) (c_off c) bs
+      = takeN (c_off c) (chain_content s (c_ids c)) ++ bs ++
+        dropN (c_off c + lenN bs) (chain_content s (c_ids c)) /\
+    good_chain s' (c_ids c) /\
+    (forall sid, ~ In sid (c_ids c) -> sector_bytes s' sid = sector_bytes s sid) /\
+    (forall sid, lenN (sector_bytes s' sid) = lenN (sector_bytes s sid)) /\
+    lenN (img s') = lenN (img s) /\
+    s' = w_img s (img s').
+Proof.
+  intros s [i ids off] bs Hgood Hfit. cbn [c_init c_ids c_off] in *.
+  unfold chain_len in Hfit. cbn [c_ids] in Hfit.
+  unfold chain_write_all. mred.
+  destruct (chain_write_go_spec i ids (S (S (S (N.to_nat (lenN bs / slen s))))) s off bs Hgood Hfit)
+    as (s' & Hgo & Hmeta & Himg & Hc & Hgood' & Hfr & Hlen).
+  - apply le_n_S, Nat.le_0_l.
+  - intro Hn. apply fuel_enough; [apply slen_pos | exact Hn].
+  - exists s'. split; [exact Hgo|]. split; [exact Hc|].
+    split; [apply spliceN_inside; rewrite (good_chain_len _ _ Hgood); lia|].
+    split; [exact Hgood'|]. split; [exact Hfr|]. split; [exact Hlen|].
+    split; [exact Himg|]. exact Hmeta.
+Qed.
+
+(* the unchanged components, spelled out *)
+Corollary chain_write_meta : forall s c bs s' r,
+  good_chain s (c_ids c) ->
+  c_off c + lenN bs <= chain_len (slen s) c ->
+  chain_write_all c bs s = (s', r) ->
+  ver s' = ver s /\ nsect s' = nsect s /\ difat_ids s' = difat_ids s /\
+  difat s' = difat s /\ fat s' = fat s /\ free s' = free s /\ dirs s' = dirs s /\
+  dir_start s' = dir_start s /\ minifat s' = minifat s /\
+  minifat_start s' = minifat_start s /\ mfree s' = mfree s /\ slen s' = slen s.
+Proof.
+  intros s c bs s' r Hgood Hfit Hrun.
+  destruct (chain_write_spec s c bs Hgood Hfit) as (s2 & Hw & _ & _ & _ & _ & _ & _ & Hmeta).
+  rewrite Hw in Hrun. injection Hrun as <- _.
+  apply same_meta_fields. exact Hmeta.
+Qed.
+
+Theorem chain_write_then_read : forall s c bs,
+  good_chain s (c_ids c) ->
+  c_off c + lenN bs <= chain_len (slen s) c ->
+  exists s',
+    chain_write_all c bs s
+      = (s', Ok (mkChain (c_init c) (c_ids c) (c_off c + lenN bs))) /\
+    (forall i,
+      chain_read_exact (mkChain i (c_ids c) (c_off c)) (lenN bs) s'
+      = (s', Ok (mkChain i (c_ids c) (c_off c + lenN bs), bs))) /\
+    (forall i o n,
+      o + n <= chain_len (slen s) c ->
+      o + n <= c_off c \/ c_off c + lenN bs <= o ->
+      exists r,
+        chain_read_exact (mkChain i (c_ids c) o) n s
+          = (s, Ok (mkChain i (c_ids c) (o + n), r)) /\
+        chain_read_exact (mkChain i (c_ids c) o) n s'
+          = (s', Ok (mkChain i (c_ids c) (o + n), r))).
+Proof.
+  intros s c bs Hgood Hfit.
+  destruct (chain_write_spec s c bs Hgood Hfit)
+    as (s' & Hw & Hc & _ & Hgood' & _ & _ & _ & Hmeta).
+  destruct (same_meta_fields _ _ Hmeta) as (_ & _ & _ & _ & _ & _ & _ & _ & _ & _ & _ & Hsl).
+  pose proof (good_chain_len _ _ Hgood) as HCL.
+  unfold chain_len in *.
+  exists s'. split; [exact Hw|]. split.
+  - intro i. rewrite chain_read_spec; cbn [c_init c_ids c_off].
+    + rewrite Hc. rewrite spliceN_read_same by (rewrite HCL; lia). reflexivity.
+    + exact Hgood'.
+    + unfold chain_len. cbn [c_ids]. rewrite Hsl. exact Hfit.
+  - intros i o n Hon Hdisj.
+    exists (takeN n (dropN o (chain_content s (c_ids c)))). split.
+    + rewrite chain_read_spec; cbn [c_init c_ids c_off]; [reflexivity | exact Hgood |].
+      unfold chain_len. cbn [c_ids]. exact Hon.
+    + rewrite chain_read_spec; cbn [c_init c_ids c_off].
+      * rewrite Hc. destruct Hdisj as [Hb|Ha].
+        -- rewrite spliceN_read_before by (rewrite ?HCL; lia). reflexivity.
+        -- rewrite spliceN_read_after by (rewrite ?HCL; lia). reflexivity.
+      * exact Hgood'.
+      * unfold chain_len. cbn [c_ids]. rewrite Hsl. exact Hon.
+Qed.
+
+Theorem chain_write_frame_other : forall s c bs ids2,
+  good_chain s (c_ids c) ->
+  good_chain s ids2 ->
+  (forall x, In x (c_ids c) -> ~ In x ids2) ->
+  c_off c + lenN bs <= chain_len (slen s) c ->
+  exists s',
+    chain_write_all c bs s
+      = (s', Ok (mkChain (c_init c) (c_ids c) (c_off c + lenN bs))) /\
+    chain_content s' ids2 = chain_content s ids2 /\
+    good_chain s' ids2 /\
+    good_chain s' (c_ids c).
+Proof.
+  intros s c bs ids2 Hgood Hgood2 Hdisj Hfit.
+  destruct (chain_write_spec s c bs Hgood Hfit)
+    as (s' & Hw & _ & _ & Hgood' & Hfr & Hlen & Himg & Hmeta).
+  exists s'. split; [exact Hw|]. split; [|split; [|exact Hgood']].
+  - unfold chain_content. f_equal. apply map_ext_in. intros x Hx.
+    apply Hfr. intro Hin. exact (Hdisj x Hin Hx).
+  - apply (good_chain_transfer s s' ids2 Hgood2 Hmeta Himg). intros x _. apply Hlen.
+Qed.
+
+Theorem chain_seek_spec : forall s c pos,
+  (pos <= chain_len (slen s) c ->
+     chain_seek c pos s = (s, Ok (mkChain (c_init c) (c_ids c) pos))) /\
+  (chain_len (slen s) c < pos ->
+     chain_seek c pos s = (s, Err EInvalidInput)).
+Proof.
+  intros s c pos. unfold chain_seek.
+  cbv beta iota zeta delta [bind get ret fail].
+  split; intro H.
+  - destruct (chain_len (slen s) c <? pos) eqn:E; [lia | reflexivity].
+  - destruct (chain_len (slen s) c <? pos) eqn:E; [reflexivity | lia].
+Qed.
+
+(* ------------------------------------------------------------------ *)
+(* chain_ids_of is the FAT walk                                        *)
+(* ------------------------------------------------------------------ *)
+
+Fixpoint is_walk (fat : list N) (start : N) (ids : list N) : Prop :=
+  match ids with
+  | [] => start = END_OF_CHAIN
+  | a :: t => a = start /\ a <> END_OF_CHAIN /\
+              exists nx, nthN fat a = Some nx /\ is_walk fat nx t
+  end.
+
+Lemma next_of_Ok_nth : forall fat a nx, next_of fat a = Ok nx -> nthN fat a = Some nx.
+Proof.
+  intros fat a nx H. unfold next_of in H.
+  destruct (nthN fat a) as [v|]; [|discriminate].
+  destruct (negb (v =? END_OF_CHAIN) && ((MAX_REGULAR_SECTOR <? v) || (lenN fat <=? v)));
+    [discriminate|]. injection H as ->. reflexivity.
+Qed.
+
+Lemma chain_ids_go_walk : forall f fat first cur acc ids,
+  chain_ids_go f fat first cur acc = Ok ids ->
+  exists t, ids = rev acc ++ t /\ is_walk fat cur t.
+Proof.
+  induction f as [|f IH]; intros fat first cur acc ids H; cbn [chain_ids_go] in H.
+  - discriminate.
+  - destruct (cur =? END_OF_CHAIN) eqn:E.
+    + injection H as <-. exists []. rewrite app_nil_r. split; [reflexivity|].
+      cbn [is_walk]. apply N.eqb_eq. exact E.
+    + destruct (next_of fat cur) as [nx| | |] eqn:Hnx; cbn [rbind] in H; try discriminate.
+      destruct (nx =? first); [discriminate|].
+      apply IH in H. destruct H as (t & Hids & Hw).
+      exists (cur :: t). split.
+      * rewrite Hids. cbn [rev]. rewrite <- app_assoc. reflexivity.
+      * cbn [is_walk]. split; [reflexivity|]. split; [apply N.eqb_neq; exact E|].
+        exists nx. split; [apply next_of_Ok_nth; exact Hnx | exact Hw].
+Qed.
+
+Lemma is_walk_consec : forall fat ids start k a b,
+  is_walk fat start ids ->
+  nthN ids k = Some a -> nthN ids (k + 1) = Some b -> nthN fat a = Some b.
+Proof.
+  intros fat ids. induction ids as [|x t IH]; intros start k a b Hw Ha Hb.
+  - discriminate.
+  - cbn [is_walk] in Hw. destruct Hw as (_ & _ & nx & Hnx & Hwt).
+    rewrite nthN_cons_pos in Hb by lia.
+    replace (N.pred (k + 1)) with k in Hb by lia.
+    destruct (N.eq_dec k 0) as [E|E].
+    + subst k. cbn [nthN N.eqb] in Ha. injection Ha as ->.
+      destruct t as [|y t']; [discriminate|].
+      cbn [nthN N.eqb] in Hb. injection Hb as ->.
+      cbn [is_walk] in Hwt. destruct Hwt as (-> & _). exact Hnx.
+    + rewrite nthN_cons_pos in Ha by lia.
+      apply (IH nx (N.pred k) a b Hwt Ha).
+      replace (N.pred k + 1) with k by lia. exact Hb.
+Qed.
+
+Lemma lastN_cons_cons : forall A (x y : A) t, lastN (x :: y :: t) = lastN (y :: t).
+Proof.
+  intros A x y t. unfold lastN. cbn [rev].
+  destruct (rev t ++ [y]) as [|h r] eqn:E.
+  - destruct (rev t); discriminate.
+  - reflexivity.
+Qed.
+
+Lemma is_walk_last : forall fat ids start a,
+  is_walk fat start ids -> lastN ids = Some a -> nthN fat a = Some END_OF_CHAIN.
+Proof.
+  intros fat ids. induction ids as [|x t IH]; intros start a Hw Hl.
+  - discriminate.
+  - cbn [is_walk] in Hw. destruct Hw as (_ & _ & nx & Hnx & Hwt).
+    destruct t as [|y t'].
+    + cbn in Hl. injection Hl as <-. cbn [is_walk] in Hwt. rewrite <- Hwt. exact Hnx.
+    + rewrite lastN_cons_cons in Hl. exact (IH nx a Hwt Hl).
+Qed.
+
+Lemma is_walk_no_eoc : forall fat ids start,
+  is_walk fat start ids -> ~ In END_OF_CHAIN ids.
+Proof.
+  intros fat ids. induction ids as [|x t IH]; intros start Hw Hin.
+  - exact Hin.
+  - cbn [is_walk] in Hw. destruct Hw as (_ & Hne & nx & _ & Hwt).
+    destruct Hin as [E|Hin]; [congruence|]. exact (IH nx Hwt Hin).
+Qed.
+
+Theorem chain_ids_of_walk : forall fat start ids,
+  chain_ids_of fat start = Ok ids ->
+  is_walk fat start ids /\
+  (ids = [] <-> start = END_OF_CHAIN) /\
+  (forall a, nthN ids 0 = Some a -> a = start) /\
+  (forall k a b, nthN ids k = Some a -> nthN ids (k + 1) = Some b ->
+                 nthN fat a = Some b) /\
+  (forall a, lastN ids = Some a -> nthN fat a = Some END_OF_CHAIN) /\
+  ~ In END_OF_CHAIN ids.
+Proof.
+  intros fat start ids H. unfold chain_ids_of in H.
+  apply chain_ids_go_walk in H. destruct H as (t & Hids & Hw).
+  cbn [rev app] in Hids. subst t.
+  split; [exact Hw|]. split; [|split; [|split; [|split]]].
+  - destruct ids as [|x t]; cbn [is_walk] in Hw.
+    + split; intro; [exact Hw | reflexivity].
+    + destruct Hw as (-> & Hne & _). split; [discriminate | intro; contradiction].
+  - intros a Ha. destruct ids as [|x t]; [discriminate|].
+    cbn [nthN N.eqb] in Ha. injection Ha as <-.
+    cbn [is_walk] in Hw. destruct Hw as (-> & _). reflexivity.
+  - intros k a b. apply (is_walk_consec fat ids start k a b Hw).
+  - intros a. apply (is_walk_last fat ids start a Hw).
+  - apply (is_walk_no_eoc fat ids start Hw).
+Qed.
+
+(* ------------------------------------------------------------------ *)
+Check sector_write_read.
+Check sector_read_spec.
+Check chain_read_spec.
+Check chain_read_eof.
+Check chain_write_spec.
+Check chain_write_meta.
+Check chain_write_then_read.
+Check chain_write_frame_other.
+Check chain_seek_spec.
+Check chain_ids_of_walk.
+Print Assumptions sector_write_read.
+Print Assumptions sector_read_spec.
+Print Assumptions chain_read_spec.
+Print Assumptions chain_read_eof.
+Print Assumptions chain_write_spec.
+Print Assumptions chain_write_then_read.
+Print Assumptions chain_write_frame_other.
+Print Assumptions chain_seek_spec.
+Print Assumptions chain_ids_of_walk.
